@@ -44,6 +44,23 @@ def node_loop(li: LoopInfo):
         if g is not None:
             ix = ("iterproj", dom, li.lid, (0,))
             return g, ix, ("idx", ("attr", g, "nodes"), ix)
+    if dom[0] == "call" and dom[1] == ("builtin", "zip") and len(dom[2]) >= 2 and not dom[3]:
+        # zip stops at the shortest operand: every other operand must have (at least) one entry per node
+        gs = [nodes_of(a) for a in dom[2]]
+        hit = [g for g in gs if g is not None]
+        if len(hit) >= 1:
+            g = hit[0]
+            rest_ok = True
+            for a, ga in zip(dom[2], gs):
+                if ga == g:
+                    continue
+                if a[0] == "alloc" and a[1] in ("numpy.zeros", "numpy.empty", "numpy.ones", "numpy.full") and a[2] \
+                        and count_of(a[2][0]) == g:
+                    continue
+                rest_ok = False
+            if rest_ok:
+                ix = ("iterproj", dom, li.lid, ("pos",))
+                return g, ix, ("idx", ("attr", g, "nodes"), ix)
     return None
 
 
